@@ -131,6 +131,9 @@ Cands ==
   \* assignments to a live slot
   \cup UNION {{Op(nm, s, t, NoX, 0, NoW) : nm \in {"assign_copy", "assign_move", "assign_other", "assign_il", "swap", "assign_range"}, t \in LiveS \ {s}} : s \in LiveS}
   \cup UNION {UNION {{Op("assign_view", s, t, NoX, 0, w) : w \in Wrappers(arr[t])} : t \in LiveS \ {s}} : s \in LiveS}
+  \* assignment between array_ref's over the storage of two arrays of equal extents: deep, no allocation, storage kept
+  \cup UNION {{Op(nm, s, t, NoX, 0, NoW) : nm \in {"ref_assign", "ref_assign_move"},
+                 t \in {q \in LiveS \ {s} : arr[q].shape = arr[s].shape /\ arr[q].first = arr[s].first /\ NE(arr[q]) > 0}} : s \in LiveS}
   \cup {Op("self_assign", s, s, NoX, 0, NoW) : s \in LiveS}
   \cup {Op("write", s, 0, NoX, 99, NoW) : s \in {q \in LiveS : NE(arr[q]) > 0}}
   \cup {Op("write_last", s, 0, NoX, 98, NoW) : s \in {q \in LiveS : NE(arr[q]) > 1}}
@@ -167,7 +170,7 @@ Result(o) ==   \* new value of slot o.s
     \* nested initializer lists are zero-based
     [] o.op \in {"ctor_il", "assign_il"} -> Arr(arr[o.t].shape, Zeros(DimD), arr[o.t].val)
     [] o.op \in {"ctor_copy", "ctor_move", "ctor_ref", "ctor_other",
-                 "assign_copy", "assign_move", "assign_other"} -> arr[o.t]
+                 "assign_copy", "assign_move", "assign_other", "ref_assign", "ref_assign_move"} -> arr[o.t]
     [] o.op = "swap"          -> arr[o.t]
     [] o.op = "self_assign"   -> arr[o.s]
     [] o.op = "write"         -> WriteF(arr[o.s], 1, o.v)
